@@ -16,6 +16,12 @@ package home
 //vx:overlay internal/home/zz_vx_c11.go
 //vx:entry vxC11Routes reach=served-session,served-basic,refused-403,redirect-login,refused-expired,refused-unknown-cookie,refused-wrong-password,refused-wrong-user,refused-no-credentials,public-login-call,public-login-page,public-asset,public-mobileconfig,public-doh,method-refused,ctype-refused,mutating-served-json,mutating-served-empty,no-admin-open,first-run-redirect,file-server,session-refreshed,pkg-home,pkg-clients,pkg-tls,pkg-dnsforward,pkg-filtering,pkg-stats,pkg-querylog,pkg-dhcpd
 //vx:entry vxC11Install reach=install-forbidden,install-open-first-run,install-method-refused,install-ctype-refused,refused-403,served-session
+//vx:entry vxC11Subtrees reach=public-login-page,public-asset,public-doh,refused-403,redirect-login,served-session,file-server
+//vx:note Registration: the real newWebAPI (conf.firstRun false; in the Install entry true followed by registerControlHandlers as handleInstallConfigure does), registerControlHandlers, RegisterAuthHandlers, registerInstallHandlers, (*clientsContainer).registerWebHandlers, (*tlsManager).registerWebHandlers and, with the real home.httpRegister as callback, dnsforward.(*Server).registerHandlers, filtering.(*DNSFilter).RegisterFilteringHandlers, stats.(*StatsCtx).initWeb, querylog.(*queryLog).initWeb, dhcpd.(*server).registerHandlers (unix) run on zero receivers against a recording mux ((*http.ServeMux).Handle/HandleFunc stubbed): 79 routes (83 with the install wizard). Every call of httpRegister must leave exactly its url on the web server's mux; no pattern is registered twice.
+//vx:note Request matrix per recorded route (Routes entry: every route): first-run flag, administrator present or not, path = the pattern (subtree patterns: 15 spellings for "/", 2 for "/dns-query/"; Subtrees entry: pattern + every suffix of 0..15 bytes for "/", 0..4 bytes for "/dns-query/"), method = symbolic string of 3, 4 or 6 bytes (thorough 3..7), Content-Type absent or 16 symbolic bytes (thorough also 10 and 33 bytes), ContentLength any int64 >= -1, session cookie absent / naming a stored session with symbolic expiry (any uint32) against a symbolic clock (10-day window) / naming no stored session, basic credentials absent / administrator name with symbolic password verdict / other name. Quick tier: refused requests get one method/content-type length (contents symbolic), basic credentials next to a cookie only with an expired session, session TTL 30 days (thorough: any TTL up to 400 days, all combinations).
+//vx:note Served through the real chain postInstall(Handler) / preInstall(Handler) / optionalAuth(Handler) / optionalAuthThird / isPublicResource (real path.Match) / ensure(Handler) / ensureContentType / modifiesData / handleHTTPSRedirect / withMiddlewares, real (*Auth).checkSession, findUser, authRequired, real (*http.Request).BasicAuth and cookie parsing, real Header.Get. Only the innermost user handler is cut (vx:stubdyn in ensure$1, postInstall$1, optionalAuth$1, preInstall$1, (*httpHandler).ServeHTTP, (http.HandlerFunc).ServeHTTP with the wrapper closures excepted; (*http.fileHandler).ServeHTTP) = event handler-ran.
+//vx:note Oracle (written from the statement): with an administrator and not first-run, for every route outside {/control/login, /apple/*.mobileconfig, /dns-query, /dns-query/, and on the "/" subtree paths starting /login. or /assets/}: handler-ran => (cookie names a stored session with now < expiry) or (administrator name and right password); otherwise no handler and status 403 or 302 to login.html. Install wizard routes: no handler and 403 without credentials once configured. Routes declared POST/PUT/DELETE (argument of httpRegister; openapi.yaml for /control/login and the install calls): handler-ran => method == declared and (Content-Type == application/json or (ContentLength == 0 and no Content-Type)); declared GET: handler-ran => method == GET. Only /dns-query[/] may be registered with an empty method.
+//vx:note outside: net/http's mux (pattern selection, path cleaning and its redirects, CONNECT), so path spellings that normalise to a protected path are covered only as "whatever reaches the / subtree handler"; the closed-world side condition (no registration site outside the functions executed here; pprof mux on localhost, internal/next) is not checked by the engine; the wiring HTTPRegister: httpRegister in home/dns.go and home.go (initDNS etc. need real I/O); handler bodies (incl. getCurrentUser in profile); gzip middleware (identity); HTTPS redirect stage with no HTTPS server configured; gl-inet mode (GLMode false); bcrypt (verdict bit); session file (storeSession/removeSessionFromFile are no-ops, see C12); first-run with an administrator present; Windows dhcpd stubs; request without a Cookie header answered by a harness copy of http.ErrNoCookie
 //vx:stub (*net/http.ServeMux).Handle vxC11MuxHandle
 //vx:stub (*net/http.ServeMux).HandleFunc vxC11MuxHandleFunc
 //vx:stub github.com/AdguardTeam/AdGuardHome/internal/home.httpRegister vxC11HTTPRegister
@@ -338,8 +344,8 @@ func vxC11Serve(rt vxC11Route, full bool, rootPaths []string) {
 	path := rt.pattern
 	switch {
 	case subtree:
-		// pattern + any suffix ("/" + up to 11 bytes; other subtrees + up to 4)
-		n := 12
+		// pattern + any suffix ("/" + up to 15 bytes; other subtrees + up to 4)
+		n := 16
 		if rt.pattern != "/" {
 			n = 5
 		}
@@ -359,8 +365,11 @@ func vxC11Serve(rt vxC11Route, full bool, rootPaths []string) {
 	cookie, basic := 0, 0
 	expire := uint32(0)
 	switch {
-	case subtree:
+	case subtree && !vx.Thorough():
 		cookie = vx.Choice("cookie", 2)
+	case subtree:
+		cookie = vx.Choice("cookie", 3)
+		basic = vx.Choice("basic", 3)
 	case admin && (!firstRun || wide):
 		cookie = vx.Choice("cookie", 3)
 		basic = vx.Choice("basic", 3)
@@ -386,7 +395,7 @@ func vxC11Serve(rt vxC11Route, full bool, rootPaths []string) {
 	validSession := cookie == 1 && uint32(now) < expire
 	rightBasic := basic == 1 && vxC11PwOK
 	authed := vx.Or(validSession, rightBasic)
-	if !wide && cookie == 1 && basic != 0 {
+	if !vx.Thorough() && cookie == 1 && basic != 0 {
 		// quick tier: basic credentials next to a session cookie only with an
 		// expired session
 		vx.Assume(!validSession)
@@ -396,23 +405,22 @@ func vxC11Serve(rt vxC11Route, full bool, rootPaths []string) {
 	// The full set of shapes is tried where the statement lets the request
 	// through to the method guard; refused requests get one shape (symbolic
 	// contents all the same).
-	shapes := wide
-	if !shapes && !subtree {
-		switch {
-		case install:
-			shapes = firstRun
-		case firstRun || !admin:
-			shapes = false
-		default:
-			shapes = vx.Or(vxC11Public(rt.pattern, path), authed)
-		}
+	shapes := false
+	switch {
+	case subtree:
+	case install:
+		shapes = firstRun
+	case firstRun || !admin:
+		shapes = wide && !firstRun
+	default:
+		shapes = vx.Or(vxC11Public(rt.pattern, path), authed)
 	}
 	mlen, ctlen := 3, 16
 	if len(decl) > 1 {
 		mlen = len(decl)
 	}
 	if shapes {
-		mlens := []int{3, 4}
+		mlens := []int{3, 4, 6}
 		ctLens := []int{0, 16}
 		if wide {
 			mlens = []int{3, 4, 5, 6, 7}
@@ -585,5 +593,20 @@ func vxC11Install() {
 	}
 	vx.Assert(len(sel) == 7, "install wizard routes are registered on first run")
 	rt := sel[vx.Choice("route", len(sel))]
-	vxC11Serve(rt, false, []string{"/", "/install.html", "/assets/x"})
+	vxC11Serve(rt, true, []string{"/", "/install.html", "/assets/x"})
+}
+
+// vxC11Subtrees: the subtree patterns ("/" = everything no other pattern
+// matches, "/dns-query/") with a symbolic request path.
+func vxC11Subtrees() {
+	vxC11Register(false)
+	var sel []vxC11Route
+	for _, rt := range vxC11Routes_ {
+		if vxC11HasSuffix(rt.pattern, "/") {
+			sel = append(sel, rt)
+		}
+	}
+	vx.Assert(len(sel) > 0, "subtree routes are registered")
+	rt := sel[vx.Choice("route", len(sel))]
+	vxC11Serve(rt, false, nil)
 }
